@@ -1,11 +1,12 @@
 package main
 
 import (
-	"reflect"
 	"bytes"
 	"encoding/gob"
 	"encoding/json"
 	"fmt"
+	"math"
+	"reflect"
 	"runtime"
 	"sort"
 	"strconv"
@@ -255,8 +256,30 @@ func runGated(l *concLine, a *Acc) (results [][]string, desync string) {
 
 var concLines int
 
+// calls that FAIL: whatever a failing call leaves behind (a buffer released twice, a half-reset scratch area, a counter not
+// wound back) must not reach the calls that follow, sequential or concurrent
+func failingCalls() {
+	guard(func() {
+		for i := 0; i < 3; i++ {
+			mxj.Map{"n": math.NaN()}.Json()
+			mxj.Map{"n": math.Inf(1)}.JsonIndent("", " ")
+			mxj.Map{"l": []interface{}{math.NaN()}}.Copy()
+			mxj.Map{"a": map[string]interface{}{"-x": []interface{}{}}}.Xml()
+			mxj.Map{"a": map[string]interface{}{"-x": []interface{}{}}}.XmlIndent("", " ")
+			mxj.NewMapXml([]byte("<a><b></a>"))
+			mxj.NewMapXmlSeq([]byte("<a><b></a>"))
+			mxj.NewMapXmlReader(strings.NewReader("<a><b"))
+			mxj.NewMapJson([]byte(`{"a":`))
+			mxj.NewMapJsonReader(strings.NewReader(`{"a":}`))
+			mxj.Map{"a": "x"}.ValuesForPath("a[x]")
+			mxj.Map{"a": "x"}.UpdateValuesForPath("a", "a")
+		}
+	})
+}
+
 func freeRun(progs [][]string, a *Acc, reps int) {
 	// ungated: many goroutines, free interleaving (memory-level races are the race detector's to report)
+	failingCalls()
 	var wg sync.WaitGroup
 	errs := make(chan string, 64)
 	for w := 0; w < 8; w++ {
@@ -430,7 +453,7 @@ func exoticMap() mxj.Map {
 	return mxj.Map{"doc": map[string]interface{}{
 		"-id": 7, "i64": int64(-2), "u64": uint64(3), "n": json.Number("1.50"), "f32like": 2.5,
 		"ss": []string{"a", "b<"}, "lm": []map[string]interface{}{{"k": 1}, {"k": "v", "-a": true}},
-		"m": mxj.Map{"x": []interface{}{1, "two", nil, map[string]interface{}{"#text": "t", "-q": "r"}}},
+		"m":     mxj.Map{"x": []interface{}{1, "two", nil, map[string]interface{}{"#text": "t", "-q": "r"}}},
 		"#text": "mixed & text", "e": []interface{}{}, "nil": nil}}
 }
 
@@ -439,7 +462,9 @@ func replayPure(line []byte, a *Acc) {
 	if err := json.Unmarshal(line, &l); err != nil {
 		panic(err)
 	}
-	pureExoticOnce.Do(func() { pureOn(exoticMap(), a, map[string]string{"f": "pure", "map": "exotic (built in the harness)"}, false) })
+	pureExoticOnce.Do(func() {
+		pureOn(exoticMap(), a, map[string]string{"f": "pure", "map": "exotic (built in the harness)"}, false)
+	})
 	if l.M == nil {
 		return // (the replay case of a finding on the exotic Map: that Map has just been exercised)
 	}
@@ -529,11 +554,18 @@ func pureOn(mv mxj.Map, a *Acc, l interface{}, jsonShaped bool) {
 	}
 	sort.Strings(conds)
 	n := 0
+	ids := containerIDs(mv)
 	check := func(name string, fn func()) bool {
 		n++
 		if p := guard(fn); p != "" {
 			// panics belong to C15; purity is checked on what returned
 			return true
+		}
+		// every map and list OBJECT of the receiver is still the one it was (a read-only call that swaps a member for an equal
+		// copy detaches what the caller obtained from earlier queries)
+		if now := containerIDs(mv); now != ids {
+			a.Mis("pure:identity:"+name, fmt.Sprintf("%s replaced a container object inside its receiver %s (content equal, identity not)", name, short(before)), l)
+			return false
 		}
 		if got := tagged.CanonGo(mv); got != before {
 			a.Mis("pure:"+name, fmt.Sprintf("%s modified its receiver: %s -> %s", name, short(before), short(got)), l)
@@ -572,7 +604,14 @@ func pureOn(mv mxj.Map, a *Acc, l interface{}, jsonShaped bool) {
 	}
 	ok = ok && check("LeafNodes", func() { mv.LeafNodes(); mv.LeafNodes(true); mv.LeafPaths(); mv.LeafValues(true) })
 	ok = ok && check("Root", func() { mv.Root() })
-	ok = ok && check("Xml", func() { mv.Xml(); mv.Xml("r"); mv.XmlIndent("", " "); var w bytes.Buffer; mv.XmlWriter(&w); mv.XmlIndentWriter(&w, "", " ") })
+	ok = ok && check("Xml", func() {
+		mv.Xml()
+		mv.Xml("r")
+		mv.XmlIndent("", " ")
+		var w bytes.Buffer
+		mv.XmlWriter(&w)
+		mv.XmlIndentWriter(&w, "", " ")
+	})
 	ok = ok && check("AnyXml", func() { mxj.AnyXml(map[string]interface{}(mv)); mxj.AnyXmlIndent(map[string]interface{}(mv), "", " ") })
 	ok = ok && check("Json", func() {
 		mv.Json()
@@ -620,6 +659,40 @@ func pureOn(mv mxj.Map, a *Acc, l interface{}, jsonShaped bool) {
 	if len(mv) > 1 {
 		a.Sample(map[string]interface{}{"map": before, "read_only_calls": n})
 	}
+}
+
+// containerIDs renders path=address for every map and non-empty list reachable from v (keys in sorted order).
+func containerIDs(v interface{}) string {
+	var b strings.Builder
+	var walk func(x interface{}, path string, d int)
+	walk = func(x interface{}, path string, d int) {
+		if d > 200 {
+			return
+		}
+		switch c := x.(type) {
+		case mxj.Map:
+			walk(map[string]interface{}(c), path, d)
+		case map[string]interface{}:
+			fmt.Fprintf(&b, "%s=%x;", path, reflect.ValueOf(c).Pointer())
+			ks := make([]string, 0, len(c))
+			for k := range c {
+				ks = append(ks, k)
+			}
+			sort.Strings(ks)
+			for _, k := range ks {
+				walk(c[k], path+"."+k, d+1)
+			}
+		case []interface{}:
+			if len(c) > 0 {
+				fmt.Fprintf(&b, "%s=%x;", path, reflect.ValueOf(c).Pointer())
+			}
+			for i, e := range c {
+				walk(e, fmt.Sprintf("%s[%d]", path, i), d+1)
+			}
+		}
+	}
+	walk(v, "", 0)
+	return b.String()
 }
 
 func init() {
